@@ -204,6 +204,8 @@ impl<K: CacheKey + 'static> MemoryCache<K> {
         }
 
         let target_entries = (self.config.max_entries * 90) / 100; // Evict to 90% capacity
+        #[cfg(feature = "verif-hooks")]
+        crate::verif_hooks::sched_point("mem.evict.before_load");
         let current_entries = self.entry_count.load(Ordering::Relaxed);
 
         if current_entries <= target_entries {
@@ -212,6 +214,8 @@ impl<K: CacheKey + 'static> MemoryCache<K> {
 
         let evict_count = current_entries - target_entries;
 
+        #[cfg(feature = "verif-hooks")]
+        crate::verif_hooks::sched_point("mem.evict.before_snapshot");
         match &self.config.eviction_policy {
             crate::traits::EvictionPolicy::Lru => self.evict_lru(evict_count),
             crate::traits::EvictionPolicy::Lfu => self.evict_lfu(evict_count),
@@ -235,8 +239,14 @@ impl<K: CacheKey + 'static> MemoryCache<K> {
         let to_evict = candidates.into_iter().take(count);
 
         for (key, _) in to_evict {
+            #[cfg(feature = "verif-hooks")]
+            crate::verif_hooks::sched_point("mem.evict.before_remove");
             if let Some((_, entry)) = self.storage.remove(&key) {
+                #[cfg(feature = "verif-hooks")]
+                crate::verif_hooks::sched_point("mem.evict.before_count");
                 self.entry_count.fetch_sub(1, Ordering::Relaxed);
+                #[cfg(feature = "verif-hooks")]
+                crate::verif_hooks::sched_point("mem.evict.before_bytes");
                 self.memory_usage
                     .fetch_sub(entry.size_bytes as u64, Ordering::Relaxed);
                 self.metrics.record_eviction(entry.size_bytes);
@@ -258,8 +268,14 @@ impl<K: CacheKey + 'static> MemoryCache<K> {
         let to_evict = candidates.into_iter().take(count);
 
         for (key, _) in to_evict {
+            #[cfg(feature = "verif-hooks")]
+            crate::verif_hooks::sched_point("mem.evict.before_remove");
             if let Some((_, entry)) = self.storage.remove(&key) {
+                #[cfg(feature = "verif-hooks")]
+                crate::verif_hooks::sched_point("mem.evict.before_count");
                 self.entry_count.fetch_sub(1, Ordering::Relaxed);
+                #[cfg(feature = "verif-hooks")]
+                crate::verif_hooks::sched_point("mem.evict.before_bytes");
                 self.memory_usage
                     .fetch_sub(entry.size_bytes as u64, Ordering::Relaxed);
                 self.metrics.record_eviction(entry.size_bytes);
@@ -281,8 +297,14 @@ impl<K: CacheKey + 'static> MemoryCache<K> {
         let to_evict = candidates.into_iter().take(count);
 
         for (key, _) in to_evict {
+            #[cfg(feature = "verif-hooks")]
+            crate::verif_hooks::sched_point("mem.evict.before_remove");
             if let Some((_, entry)) = self.storage.remove(&key) {
+                #[cfg(feature = "verif-hooks")]
+                crate::verif_hooks::sched_point("mem.evict.before_count");
                 self.entry_count.fetch_sub(1, Ordering::Relaxed);
+                #[cfg(feature = "verif-hooks")]
+                crate::verif_hooks::sched_point("mem.evict.before_bytes");
                 self.memory_usage
                     .fetch_sub(entry.size_bytes as u64, Ordering::Relaxed);
                 self.metrics.record_eviction(entry.size_bytes);
@@ -304,8 +326,14 @@ impl<K: CacheKey + 'static> MemoryCache<K> {
         let to_evict = keys.into_iter().take(count);
 
         for key in to_evict {
+            #[cfg(feature = "verif-hooks")]
+            crate::verif_hooks::sched_point("mem.evict.before_remove");
             if let Some((_, entry)) = self.storage.remove(&key) {
+                #[cfg(feature = "verif-hooks")]
+                crate::verif_hooks::sched_point("mem.evict.before_count");
                 self.entry_count.fetch_sub(1, Ordering::Relaxed);
+                #[cfg(feature = "verif-hooks")]
+                crate::verif_hooks::sched_point("mem.evict.before_bytes");
                 self.memory_usage
                     .fetch_sub(entry.size_bytes as u64, Ordering::Relaxed);
                 self.metrics.record_eviction(entry.size_bytes);
@@ -328,8 +356,14 @@ impl<K: CacheKey + 'static> MemoryCache<K> {
             .collect();
 
         for key in expired_keys {
+            #[cfg(feature = "verif-hooks")]
+            crate::verif_hooks::sched_point("mem.evict.before_remove");
             if let Some((_, entry)) = self.storage.remove(&key) {
+                #[cfg(feature = "verif-hooks")]
+                crate::verif_hooks::sched_point("mem.evict.before_count");
                 self.entry_count.fetch_sub(1, Ordering::Relaxed);
+                #[cfg(feature = "verif-hooks")]
+                crate::verif_hooks::sched_point("mem.evict.before_bytes");
                 self.memory_usage
                     .fetch_sub(entry.size_bytes as u64, Ordering::Relaxed);
                 self.metrics.record_eviction(entry.size_bytes);
@@ -378,8 +412,14 @@ impl<K: CacheKey + 'static> AsyncCache<K> for MemoryCache<K> {
                 drop(entry); // Drop the guard before attempting to remove
 
                 // Remove expired entry
+                #[cfg(feature = "verif-hooks")]
+                crate::verif_hooks::sched_point("mem.get.expired.before_remove");
                 if self.storage.remove(key).is_some() {
+                    #[cfg(feature = "verif-hooks")]
+                    crate::verif_hooks::sched_point("mem.get.expired.before_count");
                     self.entry_count.fetch_sub(1, Ordering::Relaxed);
+                    #[cfg(feature = "verif-hooks")]
+                    crate::verif_hooks::sched_point("mem.get.expired.before_bytes");
                     self.memory_usage
                         .fetch_sub(size_bytes as u64, Ordering::Relaxed);
                 }
@@ -412,9 +452,13 @@ impl<K: CacheKey + 'static> AsyncCache<K> for MemoryCache<K> {
 
         // Check capacity and evict if necessary
         if self.needs_eviction() {
+            #[cfg(feature = "verif-hooks")]
+            crate::verif_hooks::sched_point("mem.put.before_evict");
             self.perform_eviction();
         }
 
+        #[cfg(feature = "verif-hooks")]
+        crate::verif_hooks::sched_point("mem.put.before_insert");
         let entry = Arc::new(MemoryCacheEntryInner::new(value, size_bytes, Some(ttl)));
 
         // Insert or update entry
@@ -423,6 +467,8 @@ impl<K: CacheKey + 'static> AsyncCache<K> for MemoryCache<K> {
             let old_size = old_entry.size_bytes as u64;
             let new_size = size_bytes as u64;
 
+            #[cfg(feature = "verif-hooks")]
+            crate::verif_hooks::sched_point("mem.put.replace.before_bytes");
             if new_size > old_size {
                 self.memory_usage
                     .fetch_add(new_size - old_size, Ordering::Relaxed);
@@ -432,7 +478,11 @@ impl<K: CacheKey + 'static> AsyncCache<K> for MemoryCache<K> {
             }
         } else {
             // New entry
+            #[cfg(feature = "verif-hooks")]
+            crate::verif_hooks::sched_point("mem.put.new.before_count");
             self.entry_count.fetch_add(1, Ordering::Relaxed);
+            #[cfg(feature = "verif-hooks")]
+            crate::verif_hooks::sched_point("mem.put.new.before_bytes");
             self.memory_usage
                 .fetch_add(size_bytes as u64, Ordering::Relaxed);
         }
@@ -449,8 +499,14 @@ impl<K: CacheKey + 'static> AsyncCache<K> for MemoryCache<K> {
                 drop(entry); // Drop the guard before attempting to remove
 
                 // Clean up expired entry
+                #[cfg(feature = "verif-hooks")]
+                crate::verif_hooks::sched_point("mem.contains.expired.before_remove");
                 if self.storage.remove(key).is_some() {
+                    #[cfg(feature = "verif-hooks")]
+                    crate::verif_hooks::sched_point("mem.contains.expired.before_count");
                     self.entry_count.fetch_sub(1, Ordering::Relaxed);
+                    #[cfg(feature = "verif-hooks")]
+                    crate::verif_hooks::sched_point("mem.contains.expired.before_bytes");
                     self.memory_usage
                         .fetch_sub(size_bytes as u64, Ordering::Relaxed);
                 }
@@ -465,7 +521,11 @@ impl<K: CacheKey + 'static> AsyncCache<K> for MemoryCache<K> {
 
     async fn remove(&self, key: &K) -> CacheResult<bool> {
         if let Some((_, entry)) = self.storage.remove(key) {
+            #[cfg(feature = "verif-hooks")]
+            crate::verif_hooks::sched_point("mem.remove.before_count");
             self.entry_count.fetch_sub(1, Ordering::Relaxed);
+            #[cfg(feature = "verif-hooks")]
+            crate::verif_hooks::sched_point("mem.remove.before_bytes");
             self.memory_usage
                 .fetch_sub(entry.size_bytes as u64, Ordering::Relaxed);
             Ok(true)
@@ -476,7 +536,11 @@ impl<K: CacheKey + 'static> AsyncCache<K> for MemoryCache<K> {
 
     async fn clear(&self) -> CacheResult<()> {
         self.storage.clear();
+        #[cfg(feature = "verif-hooks")]
+        crate::verif_hooks::sched_point("mem.clear.before_count");
         self.entry_count.store(0, Ordering::Relaxed);
+        #[cfg(feature = "verif-hooks")]
+        crate::verif_hooks::sched_point("mem.clear.before_bytes");
         self.memory_usage.store(0, Ordering::Relaxed);
         self.metrics.reset();
         Ok(())
